@@ -593,6 +593,17 @@ def close_cfg(cfg):
                 f.close()
     except Exception:
         pass
+    # After it has been judged, every returned table is overwritten in place: a parser that
+    # hands out (or keeps) an object it also uses as the source of defaults for LATER parses
+    # then serves these values to the following configurations of the same process (seed C19h)
+    try:
+        for tname in ("parameters", "output", "input"):
+            t = cfg.get(tname)
+            if isinstance(t, dict):
+                for k in list(t):
+                    t[k] = "OVERWRITTEN-BY-THE-CALLER"
+    except Exception:
+        pass
 
 
 _LINES_OK = set()
@@ -1494,8 +1505,24 @@ def gen_cases(tier, seed):
     return keys
 
 
+def _prologue():
+    """Every configuration case starts (in its own process history, so that a replay of the
+    case alone sees the same thing) by parsing configurations without a [parameters] / without
+    an [output] table and overwriting what was returned (see close_cfg)."""
+    names = ["parameters." + n for n, _ in param_fields()]
+    for omit in (names + ["top.[parameters]"], ["output." + k for k in OUT_KEYS] + ["top.[output]"]):
+        try:
+            status, got, _ = parse(build({"mode": "velgrad", "ph": "ol", "fab": "A", "omit": omit}))
+            if status == "ok":
+                close_cfg(got)
+        except Exception:
+            pass
+
+
 def run_case(key):
     px()
+    if key["part"] == "config":
+        _prologue()
     if key["part"] == "records":
         return run_preset(key) if key.get("preset") else run_defaults(key)
     if key["part"] == "fault":
